@@ -58,11 +58,17 @@ fn base<C: Codec>(case: &Value, op: &str, form: &str, p: &Polynomial<C::T>, q: O
 /// an operation returning a polynomial
 fn poly_op<C: Codec>(case: &Value, out: &mut Out, op: &str, form: &str, p: &Polynomial<C::T>, q: Option<&Polynomial<C::T>>,
                      extra: &dyn Fn(&mut Value), f: &dyn Fn(&Polynomial<C::T>, Option<&Polynomial<C::T>>) -> Polynomial<C::T>) -> Option<Polynomial<C::T>> {
+    poly_op_live::<C>(case, out, op, form, p, q, None, extra, f)
+}
+/// `live`: call on this long-lived object instead of a fresh copy of p (sequences on one object); p is then the independent model of its state
+fn poly_op_live<C: Codec>(case: &Value, out: &mut Out, op: &str, form: &str, p: &Polynomial<C::T>, q: Option<&Polynomial<C::T>>, live: Option<&Polynomial<C::T>>,
+                     extra: &dyn Fn(&mut Value), f: &dyn Fn(&Polynomial<C::T>, Option<&Polynomial<C::T>>) -> Polynomial<C::T>) -> Option<Polynomial<C::T>> {
     let mut e = base::<C>(case, op, form, p, q);
     extra(&mut e);
     let (pc, qc) = (p.clone(), q.cloned());
-    let r = guarded(|| f(&pc, qc.as_ref()));
-    e["intact"] = json!(same::<C>(&pc, p) && match (&qc, q) { (Some(a), Some(b)) => same::<C>(a, b), _ => true });
+    let tgt: &Polynomial<C::T> = live.unwrap_or(&pc);
+    let r = guarded(|| f(tgt, qc.as_ref()));
+    e["intact"] = json!(same::<C>(tgt, p) && match (&qc, q) { (Some(a), Some(b)) => same::<C>(a, b), _ => true });
     let res = match r { Ok(x) => { put_poly::<C>(&mut e, "r", &x); Some(x) }
         Err(_) => { e["panic"] = json!(true); e["r"] = json!([]); if C::KIND == "c" { e["ri"] = json!([]); } None } };
     out.ev(e); res
@@ -70,10 +76,15 @@ fn poly_op<C: Codec>(case: &Value, out: &mut Out, op: &str, form: &str, p: &Poly
 /// an operation returning a scalar
 fn val_op<C: Codec>(case: &Value, out: &mut Out, op: &str, p: &Polynomial<C::T>, q: Option<&Polynomial<C::T>>,
                     extra: &dyn Fn(&mut Value), f: &dyn Fn() -> C::T) {
+    val_op_live::<C>(case, out, op, p, q, None, extra, f)
+}
+fn val_op_live<C: Codec>(case: &Value, out: &mut Out, op: &str, p: &Polynomial<C::T>, q: Option<&Polynomial<C::T>>, live: Option<&Polynomial<C::T>>,
+                    extra: &dyn Fn(&mut Value), f: &dyn Fn() -> C::T) {
     let mut e = base::<C>(case, op, "ref", p, q);
     extra(&mut e);
     match guarded(f) { Ok(x) => put_val::<C>(&mut e, "v", &x),
         Err(_) => { e["panic"] = json!(true); e["v"] = if C::KIND == "q" { json!([0, 1]) } else { json!(0) }; if C::KIND == "c" { e["vi"] = json!(0); } } }
+    if let Some(t) = live { e["intact"] = json!(same::<C>(t, p)); }
     out.ev(e);
 }
 
@@ -83,7 +94,71 @@ fn scalars<C: Codec>(case: &Value, key: &str) -> Vec<(Value, Option<Value>)> {
 }
 fn set_sc(e: &mut Value, key: &str, s: &(Value, Option<Value>)) { e[key] = s.0.clone(); if let Some(i) = &s.1 { e[format!("{}i", key)] = i.clone(); } }
 
+/// Sequence on ONE object: observers, a mutator (IndexMut, coeffs()[i] = v, coeffs().push / pop, trim), the same observers again ...
+/// Every observer is called on the live object and judged (by TLC, through the usual events) against the CURRENT coefficients, which are
+/// tracked independently in a plain Vec; `intact` = the object's coefficients agree with that model after the call.
+fn run_seq<C: Codec>(case: &Value, out: &mut Out) {
+    let a = arr(&case["p"]); let b = case.get("pi").map(arr);
+    let mut mv: Vec<C::T> = a.iter().enumerate().map(|(k, x)| C::dec(x, b.as_ref().and_then(|y| y.get(k)))).collect();
+    let mut obj = Polynomial::<C::T>::new(mv.clone());
+    let q = poly_from::<C>(&case["q"], case.get("qi"));
+    let xs = scalars::<C>(case, "xs"); let ss = scalars::<C>(case, "ss");
+    let zero = <C::T as ohsl::Zero>::zero();
+    for (k, st) in case["steps"].as_array().unwrap().iter().enumerate() {
+        let v = || C::dec(&st["v"], st.get("vi"));
+        match gets(st, "op") {
+            "set" => { let i = getu(st, "i"); obj[i] = v(); mv[i] = v(); }
+            "cset" => { let i = getu(st, "i"); obj.coeffs()[i] = v(); mv[i] = v(); }
+            "push" => { obj.coeffs().push(v()); mv.push(v()); }
+            "pop" => { obj.coeffs().pop(); mv.pop(); }
+            "trim" => { obj.trim(); while mv.len() > 1 && mv[mv.len() - 1] == zero { mv.pop(); } }
+            "obs" => {
+                let m = Polynomial::<C::T>::new(mv.clone());
+                let live = Some(&obj); let o = &obj;
+                let tag = |e: &mut Value| { e["step"] = json!(k); };
+                // single-entry memos: the LAST call before a mutation and the FIRST call after it use the same arguments (bracket)
+                let bracket = |out: &mut Out| {
+                    if let Some(x) = xs.first() { let xv = C::dec(&x.0, x.1.as_ref());
+                        val_op_live::<C>(case, out, "eval", &m, None, live, &|e| { tag(e); set_sc(e, "x", x); }, &|| o.eval(xv));
+                        val_op_live::<C>(case, out, "derivative_at", &m, None, live, &|e| { tag(e); e["n"] = json!(1); set_sc(e, "x", x); }, &|| o.derivative_at(xv, 1)); }
+                    poly_op_live::<C>(case, out, "derivative_n", "ref", &m, None, live, &|e| { tag(e); e["n"] = json!(1); }, &|a, _| a.derivative_n(1));
+                    if let Some(s) = ss.first() { let sv = C::dec(&s.0, s.1.as_ref());
+                        poly_op_live::<C>(case, out, "scale", "ref", &m, None, live, &|e| { tag(e); set_sc(e, "s", s); }, &|a, _| a * sv); }
+                    poly_op_live::<C>(case, out, "mul", "ref", &m, Some(&q), live, &tag, &|a, b| a * b.unwrap());
+                    poly_op_live::<C>(case, out, "derivative", "ref", &m, None, live, &tag, &|a, _| a.derivative());
+                };
+                bracket(out);
+                // the same arguments before and after every mutation (a value remembered per argument must not survive), plus varying ones
+                for (j, x) in xs.iter().enumerate() { let xv = C::dec(&x.0, x.1.as_ref());
+                    val_op_live::<C>(case, out, "eval", &m, None, live, &|e| { tag(e); set_sc(e, "x", x); }, &|| o.eval(xv));
+                    for n in [j % 3, (k + j) % (mv.len() + 1)] {
+                        val_op_live::<C>(case, out, "derivative_at", &m, None, live, &|e| { tag(e); e["n"] = json!(n); set_sc(e, "x", x); }, &|| o.derivative_at(xv, n)); } }
+                for n in [0usize, 1, 2, k % (mv.len() + 1)] {
+                    poly_op_live::<C>(case, out, "derivative_n", "ref", &m, None, live, &|e| { tag(e); e["n"] = json!(n); }, &|a, _| a.derivative_n(n)); }
+                poly_op_live::<C>(case, out, "derivative", "ref", &m, None, live, &tag, &|a, _| a.derivative());
+                poly_op_live::<C>(case, out, "neg", "ref", &m, None, live, &tag, &|a, _| -a);
+                for s in &ss { let sv = C::dec(&s.0, s.1.as_ref());
+                    poly_op_live::<C>(case, out, "scale", "ref", &m, None, live, &|e| { tag(e); set_sc(e, "s", s); }, &|a, _| a * sv); }
+                poly_op_live::<C>(case, out, "add", "ref", &m, Some(&q), live, &tag, &|a, b| a + b.unwrap());
+                poly_op_live::<C>(case, out, "sub", "ref", &m, Some(&q), live, &tag, &|a, b| a - b.unwrap());
+                poly_op_live::<C>(case, out, "mul", "ref", &m, Some(&q), live, &tag, &|a, b| a * b.unwrap());
+                poly_op_live::<C>(case, out, "mul", "ref", &q, Some(&m), None, &tag, &|a, _| a * o);              // the object as right operand
+                poly_op_live::<C>(case, out, "mul", "alias", &m, Some(&m), live, &tag, &|a, _| a * a);
+                { let mut e = base::<C>(case, "is_zero", "ref", &m, None); tag(&mut e);
+                  match guarded(|| o.is_zero()) { Ok(b) => e["b"] = json!(b), Err(_) => { e["panic"] = json!(true); e["b"] = json!(false); } } e["intact"] = json!(same::<C>(o, &m)); out.ev(e); }
+                { let mut e = base::<C>(case, "degree", "ref", &m, None); tag(&mut e);
+                  match guarded(|| o.degree()) { Ok(Ok(d)) => { e["ok"] = json!(true); e["d"] = json!(d); } Ok(Err(_)) => { e["ok"] = json!(false); e["d"] = json!(-1); }
+                      Err(_) => { e["panic"] = json!(true); e["ok"] = json!(false); e["d"] = json!(-1); } } out.ev(e); }
+                { let mut e = base::<C>(case, "size", "ref", &m, None); tag(&mut e); e["d"] = json!(o.size()); out.ev(e); }
+                bracket(out);
+            }
+            other => { eprintln!("TOOL-ERROR unknown poly step {}", other); std::process::exit(2) }
+        }
+    }
+}
+
 pub fn run<C: Codec>(case: &Value, out: &mut Out) {
+    if gets(case, "bat") == "seq" { return run_seq::<C>(case, out); }
     let p = poly_from::<C>(&case["p"], case.get("pi"));
     let q = poly_from::<C>(&case["q"], case.get("qi"));
     let own = gets(case, "form") == "own";
@@ -200,6 +275,31 @@ pub fn gen(tier: &str, seed: u64, out: &mut Out) {
                     else { json!({"ty": ty, "p": special(&mut rng, base, rep), "q": coeffs(&mut rng, (len + 2 * rep + 1) % 10, 9, true)}) };
         c["form"] = json!("ref"); c["bat"] = json!("alias"); c["xs"] = if ty == "ratq" { json!([[1, 2]]) } else { json!([2]) }; c["ss"] = json!([]); c["beyond"] = json!(0);
         if ty == "cx" { c["pi"] = json!(special(&mut rng, basei, rep + 1)); c["qi"] = json!(coeffs(&mut rng, (len + 2 * rep + 1) % 10, 9, false)); c["xsi"] = json!([1]); c["ssi"] = json!([]); }
+        push(out, c);
+    } } }
+    // (a3) sequences on one object: observers / mutator / observers ... through every mutator (no stale internal state)
+    for len in 1..=8usize { for ty in tys { for rep in 0..(if quick { 1 } else { 6 }) {
+        let cxs = ty == "cx";
+        let mut cur = coeffs(&mut rng, len, 9, true); let mut curi = if cxs { coeffs(&mut rng, len, 9, false) } else { vec![0; len] };
+        let (p0, p0i) = (cur.clone(), curi.clone());
+        let mut steps: Vec<Value> = vec![json!({"op": "obs"})];
+        let nv = |old: i64| -> i64 { if old >= 0 { -old - 1 } else { -old + 2 } };            // always different from the old value, |v| <= 11
+        let order = [[0usize, 1, 2, 3], [2, 3, 1, 0], [1, 0, 3, 2], [3, 2, 0, 1]][(len + rep) % 4];
+        for m in order {
+            match m {
+                0 | 1 => { let i = rng.gen_range(0..cur.len()); cur[i] = nv(cur[i]); curi[i] = if cxs { nv(curi[i]) } else { 0 };
+                           if i == cur.len() - 1 && cur[i] == 0 && curi[i] == 0 { cur[i] = 1; }
+                           steps.push(json!({"op": if m == 0 { "set" } else { "cset" }, "i": i, "v": cur[i], "vi": curi[i]})); }
+                2 => { let v = rng.gen_range(1..=9i64); let vi = if cxs { rng.gen_range(-9..=9i64) } else { 0 }; cur.push(v); curi.push(vi); steps.push(json!({"op": "push", "v": v, "vi": vi})); }
+                _ => { if cur.len() > 1 { cur.pop(); curi.pop(); steps.push(json!({"op": "pop"})); } else { cur[0] = nv(cur[0]); steps.push(json!({"op": "set", "i": 0, "v": cur[0], "vi": curi[0]})); } }
+            }
+            steps.push(json!({"op": "obs"}));
+        }
+        // zero the leading coefficient through IndexMut, observe, trim, observe
+        if cur.len() > 1 { let l = cur.len() - 1; cur[l] = 0; curi[l] = 0; steps.push(json!({"op": "set", "i": l, "v": 0, "vi": 0})); steps.push(json!({"op": "obs"}));
+            steps.push(json!({"op": "trim"})); steps.push(json!({"op": "obs"})); }
+        let mut c = json!({"ty": ty, "bat": "seq", "form": "ref", "p": p0, "q": coeffs(&mut rng, (len + rep) % 5 + 1, 9, true), "xs": [2, -1, 1, -2], "ss": [3, -2], "beyond": 0, "steps": steps});
+        if cxs { c["pi"] = json!(p0i); c["qi"] = json!(coeffs(&mut rng, (len + rep) % 5 + 1, 9, false)); c["xsi"] = json!([0, 1, -1, 0]); c["ssi"] = json!([1, 0]); }
         push(out, c);
     } } }
     // (b) rational coefficients and scalars (Polynomial<Rat>), degree <= 4
